@@ -221,6 +221,80 @@ fn keys_for<V: Fv>(seed: u64, nheavy: usize, nlight: usize, heavy: &mut Shards, 
             }
         }
         light.emit(json!({"ev":"sigrt","n":V::N,"siglen":V::SIG_LEN,"rt_equal":chain_ok,"tag":"decode-chain"}));
+        // every KIND of failing decode (failing early, in the middle, at the very end, on the length) directly before a decode of
+        // a valid key: the valid key must come back as itself (scratch state left behind by an error path)
+        let wfg = if V::N == 512 { 6 } else { 5 };
+        let mut kinds: Vec<(&str, Vec<u8>)> = vec![];
+        let mut b = ba.clone();
+        b.push(0);
+        kinds.push(("one-byte-longer", b));
+        let mut b = ba.clone();
+        b.pop();
+        kinds.push(("one-byte-shorter", b));
+        for (name, bit, w) in [("reserved-first-f", 8usize, wfg), ("reserved-last-g", 8 + (2 * V::N - 1) * wfg, wfg), ("reserved-first-F", 8 + 2 * V::N * wfg, 8),
+                               ("reserved-last-F", 8 + 2 * V::N * wfg + 8 * (V::N - 1), 8)] {
+            let mut b = ba.clone();
+            for j in 0..w {
+                let p = bit + j;
+                if j == 0 { b[p / 8] |= 128 >> (p % 8) } else { b[p / 8] &= !(128 >> (p % 8)) }
+            }
+            kinds.push((name, b));
+        }
+        let mut zero_f = ba.clone();
+        for p in 8..8 + V::N * wfg {
+            zero_f[p / 8] &= !(128 >> (p % 8));
+        }
+        kinds.push(("f-zero", zero_f));
+        for (name, badb) in kinds {
+            let r1 = guarded(|| V::sk_from_bytes(&badb).is_ok());
+            let ok = match guarded(|| V::sk_from_bytes(&bb)) {
+                Outcome::Ret(Ok(k)) => k == kb && V::sk_to_bytes(&k) == bb,
+                _ => false,
+            } && match guarded(|| V::sk_from_bytes(&ba)) {
+                Outcome::Ret(Ok(k)) => k == ka && V::sk_to_bytes(&k) == ba,
+                _ => false,
+            };
+            let detail = format!("after a failing decode ({}; it returned {:?})", name, match r1 { Outcome::Ret(x) => x.to_string(), Outcome::Panic(_) => "panic".into() });
+            light.emit(json!({"ev":"sigrt","n":V::N,"siglen":V::SIG_LEN,"rt_equal":ok,"tag":"decode-after-failed-decode","detail":detail}));
+        }
+        // the same for public keys and signatures
+        {
+            let (sk, pk) = V::keygen(rng.gen());
+            let (_, pk2) = V::keygen(rng.gen());
+            let pb = V::pk_to_bytes(&pk);
+            let pb2 = V::pk_to_bytes(&pk2);
+            let sig = V::sign(b"chain", &sk);
+            let sb = V::sig_to_bytes(&sig);
+            let mut badp: Vec<Vec<u8>> = vec![];
+            let mut b = pb2.clone();
+            b.push(7);
+            badp.push(b);
+            let mut b = pb2.clone();
+            let last = b.len() - 1;
+            b[last] = 0xff;
+            b[last - 1] = 0xff; // last field >= q
+            badp.push(b);
+            let mut ok = true;
+            for b in &badp {
+                let _ = guarded(|| V::pk_from_bytes(b).is_ok());
+                ok &= matches!(guarded(|| V::pk_from_bytes(&pb)), Outcome::Ret(Ok(k)) if k == pk && V::pk_to_bytes(&k) == pb);
+            }
+            let mut bads: Vec<Vec<u8>> = vec![];
+            let mut b = sb.clone();
+            let last = b.len() - 1;
+            b[last] |= 1;
+            bads.push(b);
+            let mut b = sb.clone();
+            for x in b.iter_mut().skip(41 + 100) {
+                *x = 0;
+            }
+            bads.push(b);
+            for b in &bads {
+                let _ = guarded(|| V::sig_from_bytes(b).is_ok());
+                ok &= matches!(guarded(|| V::sig_from_bytes(&sb)), Outcome::Ret(Ok(k)) if k == sig && V::sig_to_bytes(&k) == sb);
+            }
+            light.emit(json!({"ev":"sigrt","n":V::N,"siglen":V::SIG_LEN,"rt_equal":ok,"tag":"decode-after-failed-decode","detail":"public key / signature"}));
+        }
     }
     // volume: light events on many seeds in parallel, interesting ones promoted
     let nthreads = 16;
